@@ -475,7 +475,8 @@ def add_adjacent_fact(I, term, cond, fn, tag):
 
 
 def dedup_term(I, term, ordered=True):
-    raise Unsupported("set() of an abstract list")
+    """list(set(xs)) / sorted(set(xs)): the distinct elements (order unspecified; callers sort)"""
+    return core.mk_unary(I, core.Dedup, term)
 
 
 # ----------------------------------------------------------------------- min / max / sum / any / all / join
